@@ -5,9 +5,13 @@ import (
 	"context"
 	"fmt"
 
+	"github.com/libp2p/go-libp2p/core/crypto"
+	"google.golang.org/protobuf/proto"
+
 	coreda "github.com/evstack/ev-node/core/da"
 	"github.com/evstack/ev-node/internal/zzsym"
 	"github.com/evstack/ev-node/types"
+	pb "github.com/evstack/ev-node/types/pb/evnode/v1"
 )
 
 // zzRDA: scripted DA layer for retrieval.  Per DA height start+r a fetch
@@ -96,6 +100,14 @@ const (
 	zzBlobJunk
 	zzBlobUnsignedHeader
 	zzBlobKinds
+	// structurally odd but well-formed protobuf (only in ZZ_C09_odd_blobs)
+	zzOddSignatureOnly = iota + 100
+	zzOddOtherMessage
+	zzOddSignerOnly
+	zzOddEmptyInnerHeader
+	zzOddDataWithoutMetadata
+	zzOddSignedDataWithoutData
+	zzOddEnd
 )
 
 // ZZ_C09_scan: the real RetrieveLoop over two scripted DA heights with every
@@ -111,6 +123,13 @@ func ZZ_C09_blob_pairs() { zzC09Scan(1) }
 // defines (or the fetch timeout), plain or wrapped: the height is retried,
 // never skipped.
 func ZZ_C09_errors() { zzC09Scan(2) }
+
+// ZZ_C09_odd_blobs: one structurally odd blob (a message with fields missing,
+// a message of another type, signed data without data or without metadata --
+// all well-formed protobuf) in front of a genuine header at one height: the
+// scan does not panic or stall, hands exactly the genuine header to sync and
+// moves on.
+func ZZ_C09_odd_blobs() { zzC09Scan(3) }
 
 func zzC09Scan(mode int) {
 	pairs := mode == 1
@@ -144,12 +163,43 @@ func zzC09Scan(mode int) {
 			h.Signature = nil
 			return zzHeaderBlob(h)
 		}
+		pk, _ := crypto.MarshalPublicKey(e.pub)
+		sgn := &pb.Signer{Address: e.addr, PubKey: pk}
+		var msg proto.Message
+		switch kind {
+		case zzOddSignatureOnly:
+			msg = &pb.SignedHeader{Signature: []byte{0xaa, 0xbb}}
+		case zzOddOtherMessage:
+			msg = &pb.Version{Block: 7, App: 9}
+		case zzOddSignerOnly:
+			msg = &pb.SignedHeader{Signer: sgn}
+		case zzOddEmptyInnerHeader:
+			msg = &pb.SignedHeader{Header: &pb.Header{}, Signature: []byte{1}, Signer: sgn}
+		case zzOddDataWithoutMetadata:
+			msg = &pb.SignedData{Data: &pb.Data{Txs: [][]byte{{1}}}, Signature: []byte{1}, Signer: sgn}
+		case zzOddSignedDataWithoutData:
+			msg = &pb.SignedData{Signature: []byte{1}, Signer: sgn}
+		}
+		if msg != nil {
+			bz, err := proto.Marshal(msg)
+			if err != nil {
+				zzsym.Unsupported("cannot marshal an odd blob")
+			}
+			return bz
+		}
 		return nil
 	}
 	kinds := make([][]int, 2)
 	for r := 0; r < 2; r++ {
 		nb := 0
-		if pairs {
+		if mode == 3 {
+			rda.kind[r] = zzFetchOK
+			if r == 0 {
+				odd := zzOddSignatureOnly + zzsym.Pick("odd", zzOddEnd-zzOddSignatureOnly)
+				kinds[r] = []int{odd, zzBlobHeader1}
+				rda.blobs[r] = [][]byte{mk(odd), mk(zzBlobHeader1)}
+			}
+		} else if pairs {
 			// blob pairs at the first height, plain successful fetches
 			rda.kind[r] = zzFetchOK
 			if r == 0 {
